@@ -1381,7 +1381,7 @@ M('C16', 'cache emptied only when a rebuild is needed (seed a)', KRY,
         if N_missing > 0:
             self._cache = []
             self._rebuild_krylov_for_result_full(psif, N_missing)
-""", 'KRYLOV-cache-reset')
+""", None, expect='silent')   # no longer a defect: _build_krylov empties the cache first (fix 1a53206)
 M('C16', 'named rebuild count is an equivalent refactoring', KRY,
   """        self._rebuild_krylov_for_result_full(psif, N - len_cache - 1)
 """, """        N_missing = N - 1 - len_cache
